@@ -143,7 +143,7 @@ Definition fn_events (params : list (str * qty)) (body : list stmt) : evs :=
 (* ---- project level: analysis/mod.rs:125 (events of every top-level fn of every file, files in
    sorted path order since C13-sort-before-use: p_files is that order), bin: nothing at all is generated without a command ---- *)
 Record fndef := { fd_params : list param; fd_body : list stmt }.
-Record project := { p_files : list (list fndef); p_has_command : bool }.
+Record project := { p_files : list (list fndef); p_has_command : bool; p_mappings : list (str * str) }.   (* config.type_mappings *)
 Definition file_events (f : list fndef) : evs := flat_map (fun d => fn_events_p (fd_params d) (fd_body d)) f.
 Definition project_events (p : project) : evs := flat_map file_events (p_files p).
 
@@ -178,6 +178,22 @@ Definition events_text (evs : list (str * str)) : str :=
   cat [T "import { listen, type UnlistenFn, type Event } from '@tauri-apps/api/event';"; NL; T "import * as types from './types';"; NL; NL] ++
   cat (map listener_text (dedup_first evs)).
 
+(* config.type_mappings (base/type_visitor.rs visit_custom, both visitors): a payload type name that
+   parse_type_structure classifies as Custom and that has a mapping is printed as the mapping's
+   target. The model replaces the name by a Rust name with exactly that rendering (string <- String,
+   number <- f64, boolean <- bool, any other target T <- T, which renders to types.T as the code's
+   add_types_prefix does), so that the text level stays a function of the event list. *)
+Definition mapped_rust (m : list (str * str)) (s : str) : str :=
+  match prim_of s with
+  | Some _ => s
+  | None =>
+      match lookup s m with
+      | Some t => if str_eqb t (L "string") then L "String" else if str_eqb t (L "number") then L "f64"
+                  else if str_eqb t (L "boolean") then L "bool" else t
+      | None => s end
+  end.
+Definition map_events (m : list (str * str)) (l : evs) : evs := map (fun e => (fst e, mapped_rust m (snd e))) l.
+
 (* what a generation run leaves behind, as far as C12 looks at it *)
 Record output := { o_generated : bool;            (* false: "No Tauri commands found", nothing written *)
                    o_events_ts : option str;      (* events.ts *)
@@ -187,7 +203,7 @@ Definition generate (p : project) : output :=
   if p_has_command p then
     let ev := project_events p in
     if is_nil ev then {| o_generated := true; o_events_ts := None; o_index_reexports_events := false |}
-    else {| o_generated := true; o_events_ts := Some (events_text ev); o_index_reexports_events := true |}
+    else {| o_generated := true; o_events_ts := Some (events_text (map_events (p_mappings p) ev)); o_index_reexports_events := true |}
   else {| o_generated := false; o_events_ts := None; o_index_reexports_events := false |}.
 
 (* ---- the sample function `worker` (19 placements; validated against the binary) ---- *)
